@@ -154,6 +154,34 @@ def check_struct(spec):
              lambda: CachedSubstitutionMapper(make_subst_func(full))(e)),
             ("substitute", lambda: substitute(e, d, **kw)),
             ("substitute[plain]", lambda: substitute(e, d, mapper_cls=SubstitutionMapper, **kw)))
+    # substitute() must not leak keyword assignments into the caller's dict: a second
+    # call with the same dict leaves names alone that the dict does not mention
+    if kw:
+        d_before = {(k if isinstance(k, str) else repr(walk.key(k, strict=False))):
+                    repr(walk.key(v, strict=True)) for k, v in d.items()}
+        try:
+            substitute(e, d, **kw)
+            probe = p.Sum(tuple(p.Variable(k) for k in kw))
+            second = substitute(probe, d)
+        except Exception as exc:
+            res.fail("substitute:raised:" + exc_site(exc), f"{e!r}: {exc!r}")
+        else:
+            res.compared()
+            # what the dict alone says (later duplicates of a key win, as in a dict)
+            orig = {}
+            for kk, vv in spec["dict"]:
+                ko = build(kk) if isinstance(kk, list) else kk
+                orig[ko if isinstance(ko, str) else ("e", repr(walk.key(ko, strict=False)))] = (
+                    ko, build(vv))
+            want2 = ref_substitute(probe, list(orig.values()))
+            d_after = {(k if isinstance(k, str) else repr(walk.key(k, strict=False))):
+                       repr(walk.key(v, strict=True)) for k, v in d.items()}
+            if walk.key(second, strict=False) != walk.key(want2, strict=False) \
+                    or d_after != d_before:
+                res.fail("substitute:keyword-assignment-leaks-into-later-call",
+                         f"after substitute(e, d, **{sorted(kw)}) a second call "
+                         f"substitute({probe!r}, d) returned {second!r}; d now has keys "
+                         f"{sorted(d_after)} (before: {sorted(d_before)})")
     results = {}
     for who, fn in runs:
         res.compared()
